@@ -162,8 +162,9 @@ example : (match Compl.complTD Compl.Ex.aLeft Compl.Ex.sg 20 with
 * **The alphabet.**  That the symbol dictionary of the on-the-fly alphabet holds exactly the ranked symbols `Sg` handed
   to the model – in particular that a symbol is registered with ONE rank – is an assumption about the caller; symbols
   that occur in `A` but not in `Sg` are simply not complemented by the model (second clause of `C06_model_exact`).
-* No totality theorem for the decider `isComplM` (it returns `none` on too little fuel; every `some` is exact).  The two
+* The decider `isComplM` is total above the explicit bound `fuelBoundCompl C A Sg ≤ 2^(|C| + |A| + 1)`
+  (`C06_reference_total`, `C06_reference_bound` in `Vata/Properties/RefTotal.lean`).  The two
   constructions `complTD` and `complRef` are total with explicit exponential bounds (`C06_model_total`,
-  `C06_reference_construction_exact`); the bounds are not tight.
+  `C06_reference_construction_exact`); none of the bounds is tight.
 -/
 end Vata.Props
